@@ -9,6 +9,12 @@ Relations
          region and with a whole contig as region; the same shapes
   every relation carries a width-boundary stream (allele indices around 127|128 and up to 254, 256+ and 65536+
          samples / variants, positions around 2^31 - 1)
+  vcf_hist : a path with a past: a sequence of operations on ONE path - write (GenotypesVCF.write), index
+         (.tbi / .csi), set the index's modification time later / earlier than the file's, remove the index,
+         read - ending with a read without a region; an earlier write of a different matrix (fewer / more
+         variants or samples, other contigs) leaves its index beside the file the last write produced.  The
+         matrix read back must be the one last written.  (pgen: about 12% of the cases write one or two
+         other matrices to the same three files first.)
   text : the names as characters: the .psam / .pvar text (PGEN) or the VCF text (.vcf, .vcf.gz
          decompressed) resp. pysam's view (.bcf) of samples, IDs, contigs, positions, alleles
          and GTs, and what haptools reads back; unusual but legal names
@@ -25,7 +31,7 @@ from .core import Relation, err_kind
 
 PROP = "C07"
 CLAIMED = True
-COQ_MODULES = ["C07_Check", "C07_ProofsText", "C07_Proofs", "C07_ProofsWide"]
+COQ_MODULES = ["C07_Check", "C07_ProofsText", "C07_Proofs", "C07_ProofsWide", "C07_Hist", "C07_ProofsHist"]
 PROPERTY_MODULE = "C07_Property"
 ALLOWED_AXIOMS = []
 RULE = (
@@ -48,8 +54,16 @@ RULE = (
     "(thorough: all of these sizes), positions 32767|32768, 65535|65536, 2^24+1, 2^29-1|2^29, 2^31-4..2^31-1 inside "
     "the domain and 2^31, 2^31+1, 2^32-2, 2^32-1, 0 as refusals outside it (about 5% of the random matrices also carry "
     "one such position). "
+    "Histories on one path (vcf_hist; pgen in about 12% of the cases): one to three earlier writes of another matrix "
+    "to the same path - fewer / more variants (mostly a prefix of the matrix under test), fewer / more samples, other "
+    "contigs, other calls, no variants, an unrelated matrix - each indexed (.tbi / .csi beside .vcf.gz, .csi beside "
+    ".bcf) with probability 0.8 and read with probability 0.35, then the write under test without re-indexing (the "
+    "stale index stays), then the index's modification time set later (30%) or earlier (20%) than the file's, or the "
+    "file indexed again (10%), or the index removed (8%), then the read without a region; plain .vcf paths with "
+    "earlier writes and reads only; two cases per run whose stale index declares 127|128, 255|256|257, 300 or "
+    "1000|1001 records against a file with the neighbouring count. "
     "Non-trivial = at least one variant and one call that is heterozygous or missing (pgen, vcf); at least one "
-    "name outside [A-Za-z0-9] (text). Distinct = distinct canonical JSON."
+    "name outside [A-Za-z0-9] (text); vcf_hist: the last matrix written is non-trivial and differs from an earlier one. Distinct = distinct canonical JSON."
 )
 TRUSTED = [
     "pgenlib.PgenWriter accepts a batch iff every declared allele count <= allele_ct_limit and every call is missing "
@@ -67,6 +81,13 @@ TRUSTED = [
     "whether or not a .tbi/.csi lies beside the file; a region query without an index fails (record htslib with "
     "contracts hts_iter_contract / hts_region_contract; exercised on every run over all seven format/index "
     "combinations, region queries included)",
+    "a path with a past (C07_Hist.disk / step): GenotypesVCF.write replaces the data file and touches nothing else "
+    "(an index lying beside it stays), pysam.tabix_index(force=True) replaces the index by one of the file as it is "
+    "now, and what that index declares is the number of records of the file it was built from, reported by cyvcf2 "
+    "as VCF(path).num_records (observed at the end of every history and compared with the model's index_records: "
+    "hc_claim); iterating without a region yields the records of the data file whatever the index declares and "
+    "whether it is older or newer than the file (hts_iter_contract on the disk at the end of the history; htslib "
+    "only prints a warning for an index older than the file)",
     "pysam writes a record as the tab-separated line CHROM POS ID REF ALT(comma-joined) QUAL FILTER INFO [GT ...] "
     "after ## lines and the #CHROM line (observed as text on every run for .pvar, .vcf, .vcf.gz; .bcf is binary: "
     "there pysam's view of the fields is compared)",
@@ -93,6 +114,13 @@ ASSUMPTIONS = [
     "write_guard, theorems C07_vcf_refused_beyond / C07_pgen_refused_beyond / C07_pgen_refused_by_pvar, compared by "
     "agree; holds demands nothing there: pos_domb), "
     "ID not '.' (VCF's missing value), contigs and alleles over the characters the VCF specification allows",
+    "histories (vcf_hist): the demand is on the read that follows the LAST write of a path: it returns that matrix, "
+    "whatever was written to the path before and whatever index lies beside the file, up to date or not, older or "
+    "newer than the file (the property's 'does not depend on ... the presence of an index when no region is "
+    "requested': an index of the right name beside the file is present, whatever it was built from). Nothing is "
+    "demanded of region reads served from an index that was not built from the file, and no warning about the age of "
+    "an index is demanded or forbidden. Every matrix of a history lies in the domain above, so that no write is "
+    "refused half-way",
     "PGEN, variants without samples: the format cannot hold them (pgenlib's writer crashes for sample_ct = 0); "
     "GenotypesPLINK.write refuses with ValueError, which holds accepts; an interpreter crash is not accepted",
     "PGEN, a call missing in one allele only (e.g. 1/.): outside what the property demands of PGEN. Argument: the "
@@ -718,6 +746,24 @@ def praw_term(r):
     return f"(Ok (mkpr {L.z(r['n'])} {L.z(r['p'])} {seq_compact([L.z(c) for c in r['cts']])} {calls}))"
 
 
+def pgen_prior(rng, m):
+    """one or two other matrices written to the same .pgen / .pvar / .psam before the write under test (matrices
+    PGEN can hold: a sample, no half-missing call, positions and allele counts inside the domain)"""
+    out = []
+    for _ in range(int(rng.choice([1, 1, 2]))):
+        a = None
+        while a is None:
+            how = str(rng.choice(["fewer-variants", "more-variants", "fewer-samples", "more-samples", "other-contigs",
+                                  "other-calls", "independent", "no-variants"]))
+            a = related_matrix(rng, m, how, half_ok=False)
+            if a is not None and (not a["samples"] or any(v[2] < 1 or v[2] + len(v[3][0]) - 1 >= 2 ** 31 - 1 or len(v[3]) > 255
+                                                         for v in a["variants"])
+                                  or any((c[0] == 255) != (c[1] == 255) for r in a["rows"] for c in r)):
+                a = None
+        out.append({"m": a, "cw": chunk_choice(rng, len(a["variants"])), "read": bool(rng.random() < 0.4)})
+    return out
+
+
 class Pgen(Relation):
     name = "pgen"
     coq_module = "C07_Check"
@@ -749,6 +795,8 @@ class Pgen(Relation):
                 m["cw" if rng.random() < 0.5 else "cr"] = 0      # malformed: chunk_size = 0
             m["wpre"] = bool(rng.random() < 0.1)                 # _prephased on the writing object
             m["rpre"] = bool(rng.random() < 0.12)                # _prephased on the reading object
+            if rng.random() < 0.12:
+                m["prior"] = pgen_prior(rng, m)
             out.append(m)
         for m in boundary_matrices(rng, tier):
             p = len(m["variants"])
@@ -793,6 +841,7 @@ class Pgen(Relation):
         return out
 
     def run_impl(self, inp):
+        from pathlib import Path
         from haptools.data import GenotypesPLINK
         from haptools.logging import getLogger
 
@@ -800,6 +849,11 @@ class Pgen(Relation):
         d = tempfile.mkdtemp(prefix="hv_c07_")
         try:
             path = os.path.join(d, "x.pgen")
+            # what earlier writes to the same path (.pgen, .pvar, .psam) left on disk
+            for pr in inp.get("prior") or []:
+                build_obj(GenotypesPLINK, path, pr["m"], chunk_size=pr.get("cw")).write()
+                if pr.get("read"):
+                    GenotypesPLINK(Path(path), log=getLogger("hv", "CRITICAL"), chunk_size=pr.get("cw")).read()
             g = build_obj(GenotypesPLINK, path, inp, chunk_size=inp["cw"])
             rec = WriterRecorder()
             try:
@@ -861,6 +915,13 @@ class Pgen(Relation):
             out.append("writer-prephased")
         if inp.get("rpre"):
             out.append("reader-prephased")
+        for pr in inp.get("prior") or []:
+            out.append("earlier-write-to-the-path")
+            for what in ("variants", "samples"):
+                if len(pr["m"][what]) != len(inp[what]):
+                    out.append(f"earlier-write:{'fewer' if len(pr['m'][what]) < len(inp[what]) else 'more'}-{what}")
+            if pr.get("read"):
+                out.append("earlier-read")
         if isinstance(obs, dict) and "calls" in obs and "err" in obs["calls"]:
             out.append(f"write-err{obs['calls']['err']}")
         if isinstance(obs, dict) and obs.get("raw") and "ok" in obs["raw"]:
@@ -870,6 +931,14 @@ class Pgen(Relation):
         return out
 
     def shrink(self, inp):
+        pri = inp.get("prior") or []
+        if pri:
+            yield {k: v for k, v in inp.items() if k != "prior"}
+            for i in range(len(pri)):
+                if len(pri) > 1:
+                    yield dict(inp, prior=pri[:i] + pri[i + 1:])
+                for c in shrink_matrix(pri[i]["m"]):
+                    yield dict(inp, prior=pri[:i] + [dict(pri[i], m=plain_matrix(c))] + pri[i + 1:])
         for key in ("cw", "cr"):
             if inp[key] is not None:
                 yield dict(inp, **{key: None})
@@ -898,7 +967,8 @@ class Pgen(Relation):
             what = f"GenotypesPLINK.read raised {obs['back'].get('cls')}"
         else:
             what = "PGEN read-back differs from what was written"
-        return (f"pgen: {what}; {shape_class(inp)} missing-call={'missing' in f or 'half-missing' in f} "
+        past = " after another matrix had been written to the same path;" if inp.get("prior") else ""
+        return (f"pgen: {what};{past} {shape_class(inp)} missing-call={'missing' in f or 'half-missing' in f} "
                 f"unobserved-lower-allele={'unobserved-lower-allele' in f} half-missing={'half-missing' in f}")
 
 
@@ -1148,6 +1218,378 @@ class Vcf(Relation):
         if inp["variants"] and not b["variants"]:
             return f"vcf: read of a file {'with' if index_of(inp) else 'without'} index returned no variants; {sh}"
         return f"vcf: read-back differs from what was written; {sh}"
+
+
+# ----------------------------------------------------------------------------
+# a path with a past: what an earlier write left on disk
+
+
+HOW_PRIOR = ["fewer-variants", "more-variants", "fewer-samples", "more-samples", "other-contigs", "other-calls",
+             "independent", "no-variants"]
+
+
+def plain_matrix(m):
+    return {k: m[k] for k in ("samples", "variants", "rows", "planes")}
+
+
+def related_matrix(rng, m, how, half_ok=True):
+    """A matrix that differs from m in the named way (an earlier content of the same path)."""
+    n, p = len(m["samples"]), len(m["variants"])
+    mode = str(rng.choice(["phased", "unphased", "mixed"]))
+    if how == "fewer-variants" and p >= 1:
+        k = int(rng.integers(0, p))
+        a = int(rng.integers(0, p - k + 1)) if rng.random() < 0.3 else 0      # mostly a prefix
+        return dict(plain_matrix(m), variants=m["variants"][a:a + k], rows=m["rows"][a:a + k])
+    if how == "more-variants" and n >= 1:
+        extra = int(rng.integers(1, 5))
+        last = m["variants"][-1] if p else ["v0", "1", 0, ["A", "C"]]
+        if last[2] >= 2 ** 28:
+            return None
+        vs = [[f"w{j}", last[1], last[2] + 3 * (j + 1), ["A", "C", "G"][:int(rng.integers(2, 4))]]
+              for j in range(extra)]
+        return dict(plain_matrix(m), variants=m["variants"] + vs,
+                    rows=m["rows"] + [rand_calls(rng, n, len(v[3]), mode) for v in vs], planes=3)
+    if how == "fewer-samples" and n >= 2:
+        k = int(rng.integers(1, n))
+        return dict(plain_matrix(m), samples=m["samples"][:k], rows=[r[:k] for r in m["rows"]])
+    if how == "more-samples" and n >= 1:
+        extra = int(rng.integers(1, 4))
+        return dict(plain_matrix(m), samples=m["samples"] + [f"t{j}" for j in range(extra)],
+                    rows=[r + rand_calls(rng, extra, len(v[3]), mode) for v, r in zip(m["variants"], m["rows"])], planes=3)
+    if how == "other-contigs" and p >= 1:
+        ren = {}
+        for v in m["variants"]:
+            ren.setdefault(v[1], ["X", "Y", "MT", "chrUn"][len(ren) % 4])
+        return dict(plain_matrix(m), variants=[[v[0], ren[v[1]], v[2], v[3]] for v in m["variants"]])
+    if how == "other-calls" and n >= 1 and p >= 1:
+        return dict(plain_matrix(m), rows=[rand_calls(rng, n, len(v[3]), mode) for v in m["variants"]], planes=3)
+    if how == "no-variants":
+        return dict(plain_matrix(m), variants=[], rows=[])
+    if how == "independent":
+        return plain_matrix(gen_matrix(rng, half_ok=half_ok, wide=0.0))
+    return None
+
+
+def gen_history(rng, final, fmt, kind, half_ok=True):
+    """Operations on one path that end with the write of `final`; then what is done to the index."""
+    ops = []
+    for _ in range(int(rng.choice([1, 1, 1, 2, 2, 3]))):
+        a = None
+        while a is None:
+            a = related_matrix(rng, final, str(rng.choice(HOW_PRIOR)), half_ok)
+        ops.append({"op": "write", "m": a})
+        if kind is not None and index_ok(a, kind) and rng.random() < 0.8:
+            ops.append({"op": "index", "kind": kind})
+            if rng.random() < 0.08:
+                ops.append({"op": "unindex"})
+        if rng.random() < 0.35:
+            ops.append({"op": "read"})
+    ops.append({"op": "write", "m": plain_matrix(final)})
+    r = rng.random()
+    if kind is not None:
+        if r < 0.3:
+            ops.append({"op": "touch", "newer": True})       # the stale index looks up to date
+        elif r < 0.5:
+            ops.append({"op": "touch", "newer": False})
+        elif r < 0.6 and index_ok(final, kind):
+            ops.append({"op": "index", "kind": kind})        # indexed again
+            if rng.random() < 0.4:
+                ops.append({"op": "touch", "newer": False})  # ... but the fresh index looks old
+        elif r < 0.68:
+            ops.append({"op": "unindex"})
+    return ops
+
+
+def count_matrix(n, p, rng, first=10):
+    """n samples x p variants at regular distances (short literal)"""
+    mode = str(rng.choice(["phased", "unphased", "mixed"]))
+    calls = [rand_calls(rng, p, 2, mode, runs=True) for _ in range(n)]
+    return {"samples": [f"s{j}" for j in range(n)],
+            "variants": [[f"v{j}", "1", first + 7 * j, ["A", "C"]] for j in range(p)],
+            "rows": [[calls[i][j] for i in range(n)] for j in range(p)], "planes": 3}
+
+
+# record counts of the earlier (indexed) and of the last write: on both sides of the widths a count may be
+# squeezed through (and of numpy's print summarisation)
+COUNT_BOUNDARY = [(127, 128), (128, 127), (255, 256), (256, 255), (256, 257), (255, 300), (1000, 1001), (1001, 1000)]
+
+
+def final_write(ops):
+    w = [o for o in ops if o["op"] == "write"]
+    return w[-1]["m"] if w else None
+
+
+def index_state(ops):
+    """(index present in the end, number of records it was built from, newer than the file, stale)"""
+    present, recs, newer, stale, cur = False, None, False, False, None
+    for o in ops:
+        if o["op"] == "write":
+            newer, stale, cur = False, present, o["m"]
+        elif o["op"] == "index":
+            present, recs, newer, stale = True, len(cur["variants"]), True, False
+        elif o["op"] == "touch" and present:
+            newer = bool(o["newer"])
+        elif o["op"] == "unindex":
+            present, recs, stale = False, None, False
+    return present, recs, newer, stale
+
+
+def index_claim(path):
+    """what the index beside the file declares: cyvcf2's VCF(path).num_records; None without an index"""
+    if not any(os.path.exists(path + ext) for ext in (".tbi", ".csi")):
+        return None
+    from cyvcf2 import VCF
+
+    try:
+        return int(VCF(path).num_records)
+    except Exception:  # noqa
+        return -1
+
+
+class VcfHist(Relation):
+    name = "vcf_hist"
+    coq_module = "C07_Hist"
+    coq_check = "check_hist"
+    coq_case_type = "hcase"
+    coq_model = "model_hist"
+    coq_imports = ["C07_Model", "C07_Check"]
+    budget = {"quick": 110, "thorough": 2500}
+    anchors = Vcf.anchors
+
+    def generate(self, rng, n, tier):
+        out = []
+        for i in range(n):
+            m = gen_matrix(rng, half_ok=True, bigpos=0.03, beyond=False)
+            m = with_empty_shapes(rng, m)
+            fmt, kind = [("vcf.gz", "tbi"), ("vcf.gz", "csi"), ("bcf", "csi"), ("vcf", None)][int(rng.choice([0, 0, 1, 2, 2, 3]))]
+            if kind == "tbi" and not index_ok(m, kind):
+                kind = "csi"
+            out.append({"fmt": fmt, "ops": gen_history(rng, m, fmt, kind)})
+        # the width-boundary stream: the count the stale index declares against the count of the file
+        pairs = COUNT_BOUNDARY if tier == "thorough" else [COUNT_BOUNDARY[int(i)] for i in rng.choice(len(COUNT_BOUNDARY), size=2, replace=False)]
+        for ka, kb in pairs:
+            fmt, kind = [("vcf.gz", "tbi"), ("vcf.gz", "csi"), ("bcf", "csi")][int(rng.integers(0, 3))]
+            ops = [{"op": "write", "m": count_matrix(1, ka, rng)}, {"op": "index", "kind": kind},
+                   {"op": "write", "m": count_matrix(int(rng.integers(1, 3)), kb, rng, first=int(rng.integers(1, 30)))}]
+            if rng.random() < 0.5:
+                ops.append({"op": "touch", "newer": True})
+            out.append({"fmt": fmt, "ops": ops})
+        return out
+
+    def exhaustive(self, tier):
+        # one small earlier matrix against last writes of every shape, every index kind, everything that can be
+        # done to the index afterwards
+        rng = np.random.default_rng(79)
+        a = {"samples": ["s0", "s1"], "variants": [["v0", "1", 10, ["A", "C"]], ["v1", "2", 5, ["G", "T", "GA"]]],
+             "rows": [[[0, 1, 0], [1, 1, 1]], [[2, 0, 1], [255, 255, 0]]], "planes": 3}
+        finals = []
+        for n, p in ((2, 3), (1, 1), (3, 2), (2, 0), (0, 2), (0, 0)):
+            m = None
+            while m is None or len(m["variants"]) != p or not sorted_for_index(m):
+                m = gen_matrix(rng, half_ok=True, pmax=p, pmin=p, nmax=3, wide=0.0)
+            m = dict(m, samples=m["samples"][:n] if n else [], rows=[r[:n] for r in m["rows"]])
+            while len(m["samples"]) < n:
+                m["samples"].append(f"u{len(m['samples'])}")
+                m["rows"] = [r + rand_calls(rng, 1, len(v[3]), "mixed") for v, r in zip(m["variants"], m["rows"])]
+            finals.append(plain_matrix(m))
+        out = []
+        for b in finals:
+            for fmt, kind in (("vcf.gz", "tbi"), ("vcf.gz", "csi"), ("bcf", "csi")):
+                for after in ([], [{"op": "touch", "newer": True}], [{"op": "touch", "newer": False}],
+                              [{"op": "index", "kind": kind}], [{"op": "unindex"}]):
+                    for first in ([a], [b, a], [a, b]):
+                        ops = []
+                        for x in first:
+                            ops += [{"op": "write", "m": x}, {"op": "index", "kind": kind}, {"op": "read"}]
+                        out.append({"fmt": fmt, "ops": ops + [{"op": "write", "m": b}] + after})
+            out.append({"fmt": "vcf", "ops": [{"op": "write", "m": a}, {"op": "read"}, {"op": "write", "m": b}]})
+        return out
+
+    def run_impl(self, inp):
+        from pathlib import Path
+        from haptools.data import GenotypesVCF
+        from haptools.logging import getLogger
+
+        freeze_once()
+        d = tempfile.mkdtemp(prefix="hv_c07_")
+        try:
+            fmt = inp["fmt"]
+            path = os.path.join(d, "x." + fmt)
+
+            def read():
+                r = GenotypesVCF(Path(path), log=getLogger("hv", "CRITICAL"))
+                r.read()
+                return r
+
+            for i, o in enumerate(inp["ops"]):
+                try:
+                    if o["op"] == "write":
+                        build_obj(GenotypesVCF, path, o["m"]).write()
+                    elif o["op"] == "index":
+                        make_index(path, fmt, o["kind"])
+                    elif o["op"] == "touch":
+                        t = os.stat(path).st_mtime
+                        for ext in (".tbi", ".csi"):
+                            if os.path.exists(path + ext):
+                                os.utime(path + ext, (t + (10 if o["newer"] else -10),) * 2)
+                    elif o["op"] == "unindex":
+                        for ext in (".tbi", ".csi"):
+                            if os.path.exists(path + ext):
+                                os.unlink(path + ext)
+                    elif o["op"] == "read":
+                        read()
+                    else:
+                        return {"unobserved": f"unknown operation {o['op']}"}
+                except Exception as e:  # noqa
+                    err = {"err": err_kind(e), "cls": type(e).__name__, "msg": str(e)[:160], "op": i, "what": o["op"]}
+                    if o["op"] in ("index", "touch", "unindex"):
+                        return {"unobserved": f"{o['op']} failed: {err['cls']} {err['msg']}"}   # harness trouble
+                    return {"file": err, "claim": None, "back": err}
+            try:
+                file = {"ok": pysam_dump(path)}
+            except Exception as e:  # noqa
+                file = {"err": err_kind(e), "cls": type(e).__name__, "msg": str(e)[:160]}
+            claim = index_claim(path)
+            try:
+                back = {"ok": dump_obj(read())}
+            except Exception as e:  # noqa
+                back = {"err": err_kind(e), "cls": type(e).__name__, "msg": str(e)[:160], "what": "read"}
+            return {"file": file, "claim": claim, "back": back}
+        finally:
+            shutil.rmtree(d, ignore_errors=True)
+
+    def encode(self, inp, obs):
+        E = Enc()
+
+        def op(o):
+            if o["op"] == "write":
+                return f"OpWrite {E.geno_in(o['m'])}"
+            if o["op"] == "index":
+                return f"OpIndex {IDX_TERM[o['kind']]}"
+            if o["op"] == "touch":
+                return f"OpTouch {L.b(o['newer'])}"
+            return "OpUnindex" if o["op"] == "unindex" else "OpRead"
+
+        ops = L.lst(inp["ops"], op)
+        claim = "None"
+        if "unobserved" in obs:
+            file = back = "(Err 97)"
+        elif "file" not in obs:
+            file = back = f"(Err {oerr(obs)})"
+        else:
+            vc = lambda c: f"({L.opt(c[0], L.z)}, {L.opt(c[1], L.z)}, {L.b(c[2])})"
+
+            def recs(rs):
+                if len(rs) < 24:
+                    return L.lst(rs, lambda r: f"({E.variant(r[0])}, {seq_compact([vc(c) for c in r[1]])})")
+                return (f"(combine {E.variants([r[0] for r in rs])} "
+                        f"{seq_compact([seq_compact([vc(c) for c in r[1]]) for r in rs])})")
+
+            file = L.res(obs["file"], lambda f: f"(mkvf {E.samples(f['samples'])} {recs(f['recs'])})")
+            back = E.rgeno(obs["back"])
+            claim = L.opt(obs.get("claim"), L.z)
+        return f"(mkhc {FMT_TERM[inp['fmt']]} {ops} {file} {claim} {back})"
+
+    def nontrivial(self, inp, obs):
+        b = final_write(inp["ops"])
+        ws = [o["m"] for o in inp["ops"] if o["op"] == "write"]
+        return b is not None and nontrivial_matrix(b) and any(w != b for w in ws[:-1])
+
+    def classes(self, inp, obs):
+        ops = inp["ops"]
+        b = final_write(ops)
+        out = [f"fmt={inp['fmt']}"] + (features(b) if b else [])
+        ws = [o["m"] for o in ops if o["op"] == "write"]
+        out.append(f"writes={len(ws)}")
+        for a in ws[:-1]:
+            for what, f in (("variants", lambda m: len(m["variants"])), ("samples", lambda m: len(m["samples"]))):
+                if f(a) != f(b):
+                    out.append(f"earlier-write:{'fewer' if f(a) < f(b) else 'more'}-{what}")
+            if {v[1] for v in a["variants"]} - {v[1] for v in b["variants"]}:
+                out.append("earlier-write:other-contigs")
+            if a["samples"] == b["samples"] and a["variants"] == b["variants"] and a["rows"] != b["rows"]:
+                out.append("earlier-write:same-shape-other-calls")
+        present, recs, newer, stale = index_state(ops)
+        kinds = {o["kind"] for o in ops if o["op"] == "index"}
+        if present and stale:
+            out.append("stale-index:" + "/".join(sorted(kinds)))
+            out.append("stale-index:" + ("newer-than-file" if newer else "older-than-file"))
+            p = len(b["variants"])
+            out.append("stale-index-declares:" + ("fewer" if recs < p else "more" if recs > p else "as-many") + "-records")
+            if max(recs, p) >= 128:
+                out.append("record-count-boundary")
+        elif present:
+            out.append("index:fresh" + ("" if newer else "-but-older-than-file"))
+        elif kinds:
+            out.append("index:removed")
+        else:
+            out.append("index:never")
+        if any(o["op"] == "read" for o in ops):
+            out.append("earlier-read")
+        return sorted(set(out))
+
+    def shrink(self, inp):
+        ops = inp["ops"]
+        last = max(i for i, o in enumerate(ops) if o["op"] == "write")
+        kinds = [o["kind"] for o in ops if o["op"] == "index"]
+
+        def valid(cand):
+            # an index can only be built over a file that exists, is sorted and (tbi) below 2^29
+            cur = None
+            for o in cand:
+                if o["op"] == "write":
+                    cur = o["m"]
+                elif o["op"] == "index" and (cur is None or not index_ok(cur, o["kind"])):
+                    return False
+            return cand and cand[0]["op"] == "write"
+
+        for i in range(len(ops)):
+            if i != last:
+                cand = ops[:i] + ops[i + 1:]
+                if valid(cand):
+                    yield dict(inp, ops=cand)
+        for i, o in enumerate(ops):
+            if o["op"] == "write":
+                for c in shrink_matrix(o["m"], keep_one_sample=bool(o["m"]["samples"])):
+                    cand = ops[:i] + [{"op": "write", "m": plain_matrix(c)}] + ops[i + 1:]
+                    if valid(cand):
+                        yield dict(inp, ops=cand)
+        if inp["fmt"] == "bcf" and "tbi" not in kinds:
+            yield dict(inp, fmt="vcf.gz")
+
+    def mutate(self, inp, rng):
+        ops = inp["ops"]
+        last = max(i for i, o in enumerate(ops) if o["op"] == "write")
+        kind = "csi" if inp["fmt"] == "bcf" else "tbi"
+        if inp["fmt"] != "vcf":
+            # index every earlier write; drop what was done to the index after the last one
+            cand = []
+            for i, o in enumerate(ops[:last]):
+                cand.append(o)
+                if o["op"] == "write" and index_ok(o["m"], kind):
+                    cand.append({"op": "index", "kind": kind})
+            cand = [o for j, o in enumerate(cand) if not (o["op"] == "index" and j and cand[j - 1]["op"] == "index")]
+            yield dict(inp, ops=cand + [ops[last]])
+            yield dict(inp, ops=cand + [ops[last], {"op": "touch", "newer": True}])
+        b = ops[last]["m"]
+        for how in HOW_PRIOR:
+            a = related_matrix(rng, b, how)
+            if a is not None and inp["fmt"] != "vcf" and index_ok(a, kind):
+                yield dict(inp, ops=[{"op": "write", "m": a}, {"op": "index", "kind": kind}, {"op": "read"}, ops[last]])
+
+    def signature(self, inp, obs):
+        b = final_write(inp["ops"])
+        present, recs, newer, stale = index_state(inp["ops"])
+        st = ("a stale index beside the file" if present and stale else "a fresh index" if present else "no index")
+        sh = shape_class(b) if b else "no-write"
+        if not isinstance(obs, dict) or "back" not in obs:
+            return f"vcf_hist: interpreter crash/timeout in a write/read sequence on one path; {sh}"
+        if "err" in obs["back"]:
+            return f"vcf_hist: {obs['back'].get('what', 'write')} raised {obs['back'].get('cls')} on a path written before, {st}; {sh}"
+        o = obs["back"]["ok"]
+        if len(o["variants"]) < len(b["variants"]) and o["variants"] == b["variants"][:len(o["variants"])]:
+            return f"vcf_hist: read after a second write to the same path returned only the first variants, {st}; {sh}"
+        return f"vcf_hist: read after a second write to the same path differs from what was last written, {st}; {sh}"
 
 
 # ----------------------------------------------------------------------------
@@ -1500,7 +1942,7 @@ class Text(Relation):
         return f"text: {'/'.join(what) or 'calls'} read back from {t} differ; leading-quote={q}"
 
 
-RELATIONS = [Pgen(), Vcf(), Text()]
+RELATIONS = [Pgen(), Vcf(), VcfHist(), Text()]
 
 LEVEL_TEXT = (
     "Coq theorems, for every matrix size (0 samples or 0 variants included), every allele/missing/phase pattern in the "
@@ -1512,7 +1954,10 @@ LEVEL_TEXT = (
     "contig, position and alleles, every GT token is read back as written); every allele index 0..254 goes through both "
     "codecs unchanged and any writer that turns an index below 255 into '.' breaks the round trip; positions and allele "
     "counts the formats cannot hold are refused before anything is stored (and nothing else is); what holds = true "
-    "means for every setting of the _prephased attributes. The models are tied to /repo on every "
+    "means for every setting of the _prephased attributes; on a path with a past (any sequence of writes, indexings, "
+    "changes of the index's age, removals of the index and reads) the read returns the round trip of the matrix last "
+    "written: the reader provably ignores what a sibling index declares, while a reader that takes the record count "
+    "from the index is refuted by an index left from an earlier write. The models are tied to /repo on every "
     "run: the calls haptools makes to pgenlib.PgenWriter are recorded and compared, the written files are read "
     "independently with pgenlib and pysam and as text, and the object haptools reads back is compared with the model "
     "and checked against the property inside Coq."
